@@ -211,6 +211,16 @@ def compact (h : Ptr.PList) : Ptr.PList :=
   let tn := (Array.range n).map h.next
   { h with val := fun k => tv.getD k 0, prev := fun k => tp.getD k none, next := fun k => tn.getD k none }
 
+/-- the non-mutating List ops with a loop of their own: the heap-level `operator==` loop must answer what the chain model
+    answers, the heap-level `find` loop must return the item reached by `findPos` increments from `begin()` -/
+def ptrQueries (pp : PtrPair) (st : State) (op : Op) : Bool :=
+  match op with
+  | .leq v w => Ptr.eqLists (pp.get v) (pp.get w) == some ((st.getL v).vals == (st.getL w).vals)
+  | .lfind v x =>
+    (Ptr.find (pp.get v) x).isSome &&
+      Ptr.find (pp.get v) x == Ptr.walk (pp.get v) (pp.get v).begin ((st.getL v).findPos x)
+  | _ => true
+
 /-- advance the heaps by one op of the machine (called only for ops the chain model accepted) -/
 def ptrAdvance (pp : PtrPair) (before after : State) (op : Op) : PtrPair :=
   let pp1 : PtrPair :=
@@ -229,7 +239,7 @@ def ptrAdvance (pp : PtrPair) (before after : State) (op : Op) : PtrPair :=
         | some h => pp.set v h
         | none => { pp with ok := false }
   let pp2 := { pp1 with h0 := compact pp1.h0, h1 := compact pp1.h1, h2 := compact pp1.h2, h3 := compact pp1.h3 }
-  { pp2 with ok := pp2.ok && ptrAgrees pp2.h0 after.l0 && ptrAgrees pp2.h1 after.l1 &&
+  { pp2 with ok := pp2.ok && ptrQueries pp2 after op && ptrAgrees pp2.h0 after.l0 && ptrAgrees pp2.h1 after.l1 &&
                   ptrAgrees pp2.h2 after.p0 && ptrAgrees pp2.h3 after.p1 }
 
 /-! The cell-level Array model (RawArray.lean) is run in lockstep as well: after every op the two blocks must
